@@ -213,6 +213,43 @@ func checkC12(cx *Ctx, r *Report) {
 			}
 		}
 	}
+	// ... also when the list is prepared by a helper (`requestedAttributes(attrQuery.Attribute)`): a helper that can
+	// leave a requested attribute out can leave all of them out
+	if k.userinfo != nil {
+		for f := range k.userinfo.Scope {
+			for _, c := range callsIn(f) {
+				g := calleeOf(c)
+				if g == nil || !strings.HasSuffix(w.FuncKey(g), "makeAttributeQueryResponse") && !strings.HasSuffix(w.FuncKey(throughDelegation(g)), "makeAttributeQueryResponse") {
+					continue
+				}
+				for _, a := range c.Common().Args {
+					sl, isSl := a.Type().Underlying().(*types.Slice)
+					if !isSl || typeKey(sl.Elem()) != "saml.AttributeType" {
+						continue
+					}
+					hc, isCall := a.(*ssa.Call)
+					if !isCall {
+						continue
+					}
+					h := calleeOf(hc)
+					if h == nil || h.Blocks == nil || h.Pkg == nil || !isModulePath(h.Pkg.Pkg.Path()) {
+						continue
+					}
+					for _, c2 := range callsIn(h) {
+						call, ok := c2.(*ssa.Call)
+						if !ok {
+							continue
+						}
+						if b, isB := call.Call.Value.(*ssa.Builtin); !isB || b.Name() != "append" {
+							continue
+						}
+						skip := iterationCanSkip(fx.info(h), call.Block())
+						r.Check(!skip, "R-GUARD", "attr:queried-list-append@"+w.InstrPos(call), w.InstrPos(call), "every requested attribute is passed on to the filter (no iteration skips the append)", "the helper that prepares the list of requested attributes can leave one out: if all are dropped the 'nothing requested - return everything' branch discloses the whole record")
+					}
+				}
+			}
+		}
+	}
 	// the signature is the last thing done to the answer: the signing step is the last step and nothing stores into
 	// the message after the chain
 	if k.sign != nil {
